@@ -61,7 +61,9 @@ from specs.heap import FileSystem  # noqa: E402
 from specs.records import Change  # noqa: E402
 
 Prompt = TOpt(TFn(TStr, TBool))
-Link = TRef("Link", fields={})
+from specs.heap import Callback  # noqa: E402
+
+Link = TRef("Link", fields=dict(_links=TOpt(TList(TStr)), _callback=Callback, _created_dirs=TSet(TStr)), qualname="dvc_data.hashfile.checkout:Link")
 
 
 def files(hv, fs):
@@ -70,6 +72,14 @@ def files(hv, fs):
 
 def removed(hv, fs):
     return hv.get("FileSystem.removed", fs)
+
+
+def under(p):
+    """the paths that go away when p is removed: p itself and everything below it"""
+    from pyvc import specfn
+
+    f = specfn.ufn("under", z3.StringSort(), TSet(TStr).sort())
+    return SV(f(p.t), TSet(TStr))
 
 
 def msg(path):
@@ -102,7 +112,9 @@ contract(
     params=dict(self=FileSystem, path=TStr),
     raises={"FileNotFoundError": (lambda c: Not(files(c.h, c.self).contains(c.path)), lambda c: And(files(c.h, c.self) == files(c.h0, c.self), removed(c.h, c.self) == removed(c.h0, c.self)))},
     modifies=lambda c: [("FileSystem.files", c.self), ("FileSystem.removed", c.self)],
-    ensures=lambda c: And(Not(files(c.h, c.self).contains(c.path)), files(c.h, c.self).subset(files(c.h0, c.self)),
+    ensures=lambda c: And(files(c.h0, c.self).contains(c.path),  # returns normally only if there was something to remove
+                          Not(files(c.h, c.self).contains(c.path)), files(c.h, c.self).subset(files(c.h0, c.self)),
+                          files(c.h, c.self) == files(c.h0, c.self) - under(c.path),
                           removed(c.h, c.self) == removed(c.h0, c.self).add(c.path)),
     assumed=True,
     doc="fs.remove(path): the path (with what is below it) is gone and logged as removed; nothing is created",
@@ -129,16 +141,21 @@ contract(
         Implies(And(files(c.h0, c.fs).contains(c.path), removed(c.h, c.fs) != removed(c.h0, c.fs)), Or(c.force, c.in_cache, approved(c))),
         removed(c.h, c.fs).subset(removed(c.h0, c.fs).add(c.path)),
         files(c.h, c.fs).subset(files(c.h0, c.fs)),
+        # it returns normally only outside the refusing case, and it either removed exactly this path or did nothing
+        Or(c.force, c.in_cache, Not(files(c.h0, c.fs).contains(c.path)), approved(c)),
+        Or(And(removed(c.h, c.fs) == removed(c.h0, c.fs), files(c.h, c.fs) == files(c.h0, c.fs)),
+           And(removed(c.h, c.fs) == removed(c.h0, c.fs).add(c.path), files(c.h, c.fs) == files(c.h0, c.fs) - under(c.path))),
+        Implies(Not(files(c.h0, c.fs).contains(c.path)), removed(c.h, c.fs) == removed(c.h0, c.fs)),
     ),
     props=["C05"],
     doc="removal guard: not forced and not in cache -> prompt or PromptError, and then nothing is touched",
 )
 
-contract("ext:Link.__call__", params=dict(self=Link, cache=HashFileDB, from_path=TStr, to_fs=FileSystem, to_path=TStr),
+contract("dvc_data.hashfile.checkout:Link.__call__", params=dict(self=Link, cache=HashFileDB, from_path=TStr, to_fs=FileSystem, to_path=TStr),
          raises={"CheckoutError": (None, lambda c: removed(c.h, c.to_fs) == removed(c.h0, c.to_fs))},
          modifies=lambda c: [("FileSystem.files", c.to_fs)],
          ensures=lambda c: files(c.h, c.to_fs) == files(c.h0, c.to_fs).add(c.to_path),
-         assumed=True, doc="Link(cache, from, fs, to): creates `to` (never removes anything)")
+         assumed=True, verify=False, doc="Link(cache, from, fs, to): creates `to` (never removes anything)")
 contract("dvc_data.hashfile.db:HashFileDB.protect", params=dict(self=HashFileDB, path=TStr), assumed=True, doc="mode bits only")
 contract("dvc_data.hashfile.db.local:LocalHashFileDB.protect", params=dict(self=HashFileDB, path=TStr), assumed=True, verify=False, doc="mode bits only (os.chmod)")
 contract("dvc_data.hashfile.db:HashFileDB.unprotect", params=dict(self=HashFileDB, path=TStr), assumed=True, doc="base class: no-op")
